@@ -24,6 +24,9 @@ import (
 var defaultErrorHandler = builtin(defaultErrorHandlerFn)
 
 func defaultErrorHandlerFn(intp *Interpreter) error {
+	if len(intp.errors) == 0 {
+		return nil
+	}
 	return intp.errors[len(intp.errors)-1]
 }
 
